@@ -693,12 +693,17 @@ func (c *CharSet) addCategory(categoryName string, negate, caseInsensitive bool)
 
 	}
 
-	if caseInsensitive && !negate && (categoryName == "Ll" || categoryName == "Lu" || categoryName == "Lt") {
-		// when RegexOptions.IgnoreCase is specified then {Ll} {Lu} and {Lt} cases should all match
-		c.addCategories(
-			Category{Cat: "Ll", Negate: negate},
-			Category{Cat: "Lu", Negate: negate},
-			Category{Cat: "Lt", Negate: negate})
+	// the long names (Lowercase_Letter, ...) are aliases of the two-letter general categories
+	gc := categoryName
+	if short, ok := unicode.CategoryAliases[gc]; ok {
+		gc = short
+	}
+	if caseInsensitive && (gc == "Ll" || gc == "Lu" || gc == "Lt") {
+		// when RegexOptions.IgnoreCase is specified then {Ll} {Lu} and {Lt} all mean "cased
+		// letter" (LC = Ll|Lu|Lt); negated, they mean "not a cased letter", so that the case of
+		// the input letter never matters
+		c.addCategories(Category{Cat: "LC", Negate: negate})
+		return
 	}
 	c.addCategories(Category{Cat: categoryName, Negate: negate})
 }
